@@ -63,7 +63,8 @@ ContainsFn(this, arg) ==
   CASE this.t = "list" -> R(VBool(InList(arg, this.e, 1)))
     [] this.t = "map"  -> IF IsKeyKind(arg) THEN R(VBool(HasKey(this, arg))) ELSE E({"type"})
     [] this.t = "str"  -> IF arg.t = "str" THEN R(VBool(Contains(this.cp, arg.cp))) ELSE D(R(VBool(FALSE)))
-    [] this.t = "bytes" -> D(R(VBool(FALSE)))                 \* not a CEL function on bytes
+    [] this.t = "bytes" -> IF arg.t = "bytes" THEN R(VBool(Contains(this.b, arg.b)))       \* documented by the implementation: a run of bytes occurs
+                           ELSE D(R(VBool(FALSE)))
     [] OTHER           -> D(R(VBool(FALSE)))
 
 \* min / max over a non-empty sequence of mutually comparable values: any member that bounds
